@@ -141,6 +141,20 @@ func (e *Engine) BuildQuery(facts []*Term, goal *Term, solver string, lenBound b
 	q := &queryBuilder{e: e, ops: map[string]bool{}, sorts: map[string]*Sort{}, consts: map[string]*Term{}, syms: map[*SpecSym]bool{},
 		exts: map[string]*ExtSym{}, lits: map[string]*Term{}, litAr: map[string]map[int]bool{}}
 	neg := Not(goal)
+	// ground terms that occur only inside a quantifier of the goal are invisible to E-matching until
+	// the quantifier is instantiated - but they may be exactly the instance that is needed (e.g. the
+	// witness of an existential). They are seeded into the E-graph through a harmless uninterpreted
+	// predicate.
+	seeds := map[string]*Term{}
+	groundSeeds(goal, map[string]bool{}, false, nil, seeds)
+	var seedFacts []*Term
+	for _, k := range sortedKeys(seeds) {
+		t := seeds[k]
+		name := "gnd." + t.Sort.Name
+		e.Defs.noteFunc(name, []*Sort{t.Sort}, SBool)
+		seedFacts = append(seedFacts, App(name, SBool, t))
+	}
+	facts = append(append([]*Term{}, facts...), seedFacts...)
 	all := append(append([]*Term{}, facts...), neg)
 	for _, t := range all {
 		q.scan(t)
@@ -561,6 +575,9 @@ func (e *Engine) BuildQuery(facts []*Term, goal *Term, solver string, lenBound b
 		if strings.HasPrefix(n, "global!") && e.sentinels[n] != nil {
 			p("(assert (not (= %s nil.Iface)))", smtName(n))
 		}
+		if strings.HasPrefix(n, "global!") && e.nonNilGlobals[n] {
+			p("(assert (not (= %s nil.Ref)))", smtName(n))
+		}
 	}
 	for _, f := range facts {
 		p("(assert %s)", addFuel(f, hypFuel, rec))
@@ -568,6 +585,52 @@ func (e *Engine) BuildQuery(facts []*Term, goal *Term, solver string, lenBound b
 	p("(assert %s)", addFuel(neg, topFuel, rec))
 	p("(check-sat)")
 	return sb.String(), nil
+}
+
+// groundSeeds collects, inside quantifiers of t, the ground applications whose head symbol is the head
+// of a pattern of an enclosing quantifier.
+func groundSeeds(t *Term, bound map[string]bool, inQ bool, heads map[string]bool, out map[string]*Term) {
+	if t == nil || t.IsLit() {
+		return
+	}
+	if t.Op == "forall" || t.Op == "exists" {
+		nb := map[string]bool{}
+		for k := range bound {
+			nb[k] = true
+		}
+		for _, v := range t.Vars {
+			nb[v.Name] = true
+		}
+		nh := map[string]bool{}
+		for k := range heads {
+			nh[k] = true
+		}
+		for _, ps := range t.Pats {
+			for _, p := range ps {
+				if p.Op != "" {
+					nh[p.Op] = true
+				}
+			}
+		}
+		groundSeeds(t.Args[0], nb, true, nh, out)
+		return
+	}
+	if inQ && t.Op != "" && heads[t.Op] && len(out) < 24 {
+		fc := map[string]*Term{}
+		FreeConsts(t, fc)
+		ground := true
+		for n := range fc {
+			if bound[n] {
+				ground = false
+			}
+		}
+		if ground {
+			out[t.String()] = t
+		}
+	}
+	for _, a := range t.Args {
+		groundSeeds(a, bound, inQ, heads, out)
+	}
 }
 
 func isParamName(n string) bool {
